@@ -1173,6 +1173,10 @@ def level_store_obligations(v, S, ctx):
         i = L.rng.start + alg.atom_expr(L.ivar) * L.rng.step
         fin = L.state_at(L.rng.count) if getattr(L, "state_at", None) and L.linear else None
         for ls in ins:
+            if getattr(ls, "masked", False):
+                # x[levels == i] = state: the slots are chosen by the requested level itself, in any order and multiplicity
+                obs.append(eq_ob("R-LVL-STATE", site, "masked store into %s selects the slots whose requested level is the current node" % ls.array, ls.guard.value, i))
+                continue
             # guard: loop node index in the level list
             obs.append(eq_ob("R-LVL-STATE", site, "store into %s is guarded by membership of the current node index" % ls.array, ls.guard.value, i))
             cont = ls.guard.container
